@@ -2,10 +2,12 @@
 use crate::reg::Reg;
 
 #[cfg(feature = "c01")] pub mod c01;
+#[cfg(feature = "c06")] pub mod c06;
 
 pub fn register(prop: &str, reg: &mut Reg) {
     match prop {
         #[cfg(feature = "c01")] "C01" => c01::register(reg),
+        #[cfg(feature = "c06")] "C06" => c06::register(reg),
         _ => { eprintln!("symx: property {} not available in this build", prop); std::process::exit(2); }
     }
 }
